@@ -87,13 +87,18 @@ class Ctx(object):
         return os.path.join(self.scratch, name)
 
     # ----------------------------------------------------------------- TLC runs
+    def log(self, msg):
+        if os.environ.get("VERIF_VERBOSE"):
+            print("[%6.1fs] %s" % (time.time() - self.t0, msg), file=sys.stderr)
+
     def note_run(self, r, label):
+        self.log("%s: %d distinct, %d generated, %.1fs" % (label, r.distinct, r.generated, r.wall))
         self.states += r.distinct
         self.transitions += r.generated
         self.tlc_cmds.append("%s: %s" % (label, _short_cmd(r.cmd)))
 
     def model_check(self, module, cfg=None, cfg_text=None, workers=NCPU, env=None, label=None, timeout=7200,
-                    expect_violation=False, coverage=True, heap="12g", args=(), allow_zero=()):
+                    expect_violation=False, coverage=False, heap="12g", args=(), allow_zero=()):
         """(S) spec-level model checking. Must pass (or must fail when expect_violation)."""
         r = tlc.run(module, cfg=cfg, cfg_text=cfg_text, workers=workers, env=env, timeout=timeout,
                     scratch=self.scratch, coverage=coverage, heap=heap, args=args)
@@ -123,6 +128,7 @@ class Ctx(object):
         r = tlc.run(module, cfg=cfg, cfg_text=cfg_text, workers=workers, env=e, timeout=timeout,
                     scratch=self.scratch, heap=heap, args=["-seed", str(self.seed)] + list(args))
         self.tlc_cmds.append("G:%s %s" % (module, _short_cmd(r.cmd)))
+        self.log("G:%s %.1fs" % (module, r.wall))
         if not r.ok or not os.path.exists(path):
             raise Machinery("generator %s failed (rc=%s)\n%s" % (module, r.rc, r.tail(40)))
         with open(path) as f:
@@ -138,6 +144,7 @@ class Ctx(object):
         in one shard (used for stateful traces)."""
         if not events:
             return []
+        shard = min(max(shard // 8, -(-len(events) // NCPU)), shard * 2) if len(events) > shard else shard
         shards = []
         if group is None:
             for i in range(0, len(events), shard):
@@ -165,8 +172,10 @@ class Ctx(object):
             os.unlink(path)
             return k, r
 
+        t1 = time.time()
         with cf.ThreadPoolExecutor(max_workers=NCPU) as ex:
             results = list(ex.map(one, range(len(shards))))
+        self.log("V:%s %d events in %d shards: %.1fs" % (module, len(events), len(shards), time.time() - t1))
         for k, r in results:
             self.states += r.distinct
             self.transitions += r.generated
@@ -190,7 +199,7 @@ class Ctx(object):
 
 
 def _short_cmd(cmd):
-    return cmd.replace("-XX:+UseParallelGC ", "").replace(tlc.JAR, "$TLA_JARS")
+    return cmd.replace("-XX:+UseParallelGC ", "").replace("-XX:+UseSerialGC ", "").replace(tlc.JAR, "$TLA_JARS")
 
 
 # --------------------------------------------------------------------------- driving the implementation
@@ -358,7 +367,9 @@ def judge(ctx, modname, cases, trace_module, cfg_text, describe, shard=4000, env
     Returns the list of failing (case, event, clauses, triggers)."""
     for i, c in enumerate(cases):
         c["id"] = i + 1
+    t1 = time.time()
     events = execute_all(modname, cases, chunk=chunk)
+    ctx.log("executed %d cases on the implementation: %.1fs" % (len(cases), time.time() - t1))
     ctx.evaluations += len(events)
     if nontrivial is not None:
         for c, e in zip(cases, events):
